@@ -5,6 +5,8 @@ COMMON_ASSUME = [
     "preemption granularity: function entries of the packages under test, lock/cond/channel/atomic operations; not every memory access",
     "fault model for storage: process death (completed system calls and stores into shared mappings survive; user-space buffers and memory are lost); no power loss, no torn single write",
     "testing/synctest (go1.26.8) provides the fake clock and quiescence detection",
+    "sync.Pool of the lindb packages is a per-run LIFO stack (deterministic reuse inside a run, nothing survives a run); pools inside third-party modules stay real",
+    "every worker process executes one throw-away run first, so that lazily initialised package state is the same for a plan found in a batch and for its replay in a fresh process",
 ]
 
 PROPS = {
@@ -113,10 +115,37 @@ PROPS["C09"] = {
     "fault_kinds": ["crash@write", "crash@yield", "crash-idle", "close-reopen"],
     "real": ["index (kv store, metric meta database, metric index database, schema store, sequence)", "index/v1 flushers/readers/mergers, index/model trie buckets", "kv stores underneath", "hashicorp/golang-lru expirable cache (rewritten copy)"],
     "stub": ["tsdb/memdb workers: replaced by harness tasks calling the same index APIs in the same roles (the real workers run in the node harness)"],
-    "assumptions": COMMON_ASSUME + ["series ids are generated by one caller per index database, as one shard index worker does", "sync.Pool reuse of tries is not controlled by the simulator"],
+    "assumptions": COMMON_ASSUME + ["series ids are generated by one caller per index database, as one shard index worker does"],
     "design_ref": "5/C09",
     "level_text": "Seeded exploration of interleavings of the get-or-create calls of the real index databases with flushes, reopen and process death inside flushes; bijection ledger across restarts.",
     "technique": "deterministic simulation: seeded baton scheduler + tape-placed process death in metadata/index flushes; name<->ID bijection ledger across incarnations",
+}
+
+NODE_REAL = ["tsdb (engine, database, shard, data family, memory database, field writer, index/meta workers, flush paths)", "index (meta database, index database, kv store, forward/inverted index, trie buckets)", "kv stores, version sets, compaction", "tsdb/tblstore/metricsdata (flusher, reader, filter, loader, merger)", "sql parser, query (MetricDataSearch root, leaf and intermediate task processors, pipelines, stages, operators), flow, aggregation", "series/metric proto -> flat-buffer converter and StorageRow"]
+NODE_STUB = ["rpc transport: an in-process loopback that hands TaskRequest/TaskResponse protobufs to the real processors (delivery order is a tape decision)", "broker state manager / node discovery: a fixed in-memory topology", "write-ahead log and replication (covered by C05-C08; rows go straight to DataFamily.WriteRows as the local replicator does)"]
+PROPS["C10"] = {
+    "harness": "node", "level": "exploration", "per_proc": 60, "proc_timeout": 900,
+    "quick": {"runs": 2500, "budget_s": 300},
+    "thorough": {"runs": 120000, "budget_s": 1700, "shrink_runs": 200, "shrink_timeout": 600},
+    "rule": "Each run: a real tsdb engine with 1-2 shards; a universe of 2-11 series (tag id always present and unique, host out of 4 values incl. a multi-byte one and values sharing prefixes, optional zone and app) spread over the shards; 7-15 operations out of write (1-12 points), the flush sequence of the flush checker (metadata -> shard index -> family data), kv compaction of every store, query, and query running concurrently with the flush sequence under a seeded schedule. Every query carries a generated tag condition (depth <= 3 over =, !=, in, not in, like prefix/suffix/contains/exact, not like, =~, !~, and/or, parentheses) and groups by id,host through the real MetricDataSearch -> leaf pipeline. Oracle: the condition evaluated by brute force on the tags of every series written before the query started (missing key = false, also for the negated forms, as the statement's 'not = series having the key minus matches'); the set of returned groups and their group-key values must equal it exactly. A condition naming a tag key that no written series carries is expected to be rejected ('tag key not found').",
+    "fault_kinds": ["flush", "compact"],
+    "real": NODE_REAL, "stub": NODE_STUB,
+    "assumptions": COMMON_ASSUME + ["the group-by keys id,host exist on every series, so the returned group keys identify the selected series"],
+    "design_ref": "5/C10",
+    "level_text": "Seeded exploration of write / index flush / compaction / query histories on a real engine, with queries racing the flush sequence under a seeded schedule; brute-force predicate evaluation decides.",
+    "technique": "deterministic simulation: generated histories + seeded interleaving of queries with metadata/index/data flush tasks; brute-force predicate model",
+}
+PROPS["C11"] = {
+    "harness": "node", "level": "exploration", "per_proc": 60, "proc_timeout": 900,
+    "quick": {"runs": 2500, "budget_s": 300},
+    "thorough": {"runs": 120000, "budget_s": 1700, "shrink_runs": 200, "shrink_timeout": 600},
+    "rule": "Each run: as C10 plus engine close+reopen; points carry a random subset of five fields (sum, min, max, last, first), timestamps in the first 10 minutes of one family, slot-aligned or not, duplicates and out-of-order slots inside and outside the 64-slot write window. Queries select one field over a random or whole-hour time range, optional tag condition (depth <= 1), group by none / host / id / id,host, interval none / 20 s / 30 s / 60 s. Oracle: a ledger of every accepted point; the reference keeps points whose 10 s storage slot lies in the truncated range, buckets them from the truncated range start, combines one bucket by the field's aggregate (sum/min/max exactly; last/first must be one of the written values) - compared group by group and slot by slot, including 'no value where nothing was written'. A group without any value of the selected field may be returned (series are selected before the field is read).",
+    "fault_kinds": ["flush", "compact", "close-reopen"],
+    "real": NODE_REAL, "stub": NODE_STUB,
+    "assumptions": COMMON_ASSUME + ["values are integers so float sums are exact in any order", "histogram fields are covered at file level by C03, not here", "one family (hour) per run"],
+    "design_ref": "5/C11",
+    "level_text": "Seeded exploration of write / flush / compaction / reopen / query histories on a real engine, queries racing the flush sequence; a naive point ledger with bucket-by-timestamp semantics decides.",
+    "technique": "deterministic simulation: generated histories + seeded interleaving of queries with flush tasks; naive point-ledger reference model",
 }
 
 PROPS["C03"] = {
